@@ -369,6 +369,7 @@ func checkPoll(c *core.Ctx) {
 		c.Unknown("POLL", key, round.Pos(), "the polling loop keeps no memory of the previous round")
 		return
 	}
+	memoryTime := "" // the remembered time, as the round reads it (set to this round's time before the source runs)
 	for _, sc := range []struct{ first, prevFlag bool }{{true, false}, {false, false}, {false, true}} {
 		first, prevFlag := sc.first, sc.prevFlag
 		in := newInterp(p, fn)
@@ -495,6 +496,9 @@ func checkPoll(c *core.Ctx) {
 					bad = "the remembered time (" + prevTime + ") is not advanced to this round's time"
 				}
 			}
+			if prevTime != "" {
+				memoryTime = prevTime
+			}
 			if strings.Contains(seq, "S") && prevTime == "" {
 				bad = "the round does not ask whether there was a previous round (IsZero on the remembered time)"
 			}
@@ -589,10 +593,13 @@ func checkPoll(c *core.Ctx) {
 			if !strings.Contains(all, recName+".Retraction") {
 				bad = "the flag the row was emitted with is not remembered for the next round"
 			}
-			if et := o.Field(rec, "EventTime"); et == nil || nowName == "" || et.Canon() != nowName {
+			// this round's time: the variable holding time.Now(), or the memory's time field, which the round has
+			// set to it before the source runs (decided above)
+			isNow := func(s string) bool { return s != "" && (s == nowName || s == memoryTime) }
+			if et := o.Field(rec, "EventTime"); et == nil || !isNow(et.Canon()) {
 				bad = "snapshot rows carry this round's time as event time"
 			}
-			if stamp != nowName || nowName == "" {
+			if !isNow(stamp) {
 				bad = "the first column must be this round's time (got " + stamp + ")"
 			}
 			if !strings.Contains(all, "make@") {
